@@ -169,6 +169,7 @@ where
                                 target_max_depth,
                                 &max_depth,
                                 symmetry,
+                                &shutdown,
                             );
 
                             // Check whether we have found everything.
@@ -220,6 +221,7 @@ where
         target_max_depth: Option<NonZeroUsize>,
         global_max_depth: &AtomicUsize,
         symmetry: Option<fn(&M::State) -> M::State>,
+        shutdown: &AtomicBool,
     ) {
         let properties = model.properties();
 
@@ -260,6 +262,10 @@ where
             ebits
         };
         'outer: loop {
+            // A trace may never end on its own, so the timeout must be noticed here as well.
+            if shutdown.load(Ordering::Relaxed) {
+                return;
+            }
             if fingerprint_path.len() > current_max_depth {
                 let _ = global_max_depth.compare_exchange(
                     current_max_depth,
